@@ -198,19 +198,25 @@ Out(r, check, tally, note) ==
 Skip(r, check, why) == [id |-> r.id, check |-> check, v |-> "skip", n |-> 0, unk |-> 0, t |-> 0, f |-> 0,
                         dis |-> 0, wit |-> <<>>, groups |-> 0, ident |-> 0, atoms |-> 0, note |-> why]
 
+OkT == [Zero EXCEPT !.n = 1, !.t = 1, !.ident = 1, !.atoms = 1]
+BadT(w) == [Zero EXCEPT !.dis = 1, !.wit = w]
+
 \* ---------------------------------------------------------------- kind "rule": C01 and C08
 \* C01: Ground(tau*) =HT= tau-semantics of the rule.   C08: natural =HT= tau*, mu =HT= tau*.
 EvalRule(r) ==
   LET gr == RuleGround(r.rule)
       gt == Ground(r.tau, EmptyEnv)
-      gm == Ground(r.mu, EmptyEnv)
       hasNat == r.nat.k # "none"
       gn == IF hasNat THEN Ground(r.nat, EmptyEnv) ELSE TT
+      \* mu is the natural translation of a regular rule and tau* otherwise: when anthem returned the very same tree it is not grounded again
+      gm == IF r.mu = r.tau THEN gt ELSE IF hasNat /\ r.mu = r.nat THEN gn ELSE Ground(r.mu, EmptyEnv)
+      muIsOne == r.mu = r.tau \/ (hasNat /\ r.mu = r.nat)
   IN IF Prop = "C01" THEN <<Out(r, "C01.tau_vs_semantics", HTEquiv(gt, gr, <<>>), "")>>
      ELSE <<Out(r, "C08.mu_vs_tau", HTEquiv(gm, gt, <<>>), ""),
-            Out(r, "C08.mu_vs_semantics", HTEquiv(gm, gr, <<>>), "")>>
-          \o (IF hasNat THEN <<Out(r, "C08.natural_vs_tau", HTEquiv(gn, gt, <<>>), ""),
-                               Out(r, "C08.natural_vs_semantics", HTEquiv(gn, gr, <<>>), "")>>
+            Out(r, "C08.mu_is_natural_or_tau_star", IF muIsOne THEN OkT ELSE BadT([note |-> "mu returned neither the natural translation nor tau*"]), "")>>
+          \o (IF FullHT THEN <<Out(r, "C08.mu_vs_semantics", HTEquiv(gm, gr, <<>>), "")>> ELSE <<>>)
+          \o (IF hasNat THEN <<Out(r, "C08.natural_vs_tau", HTEquiv(gn, gt, <<>>), "")>>
+                               \o (IF FullHT THEN <<Out(r, "C08.natural_vs_semantics", HTEquiv(gn, gr, <<>>), "")>> ELSE <<>>)
               ELSE <<Skip(r, "C08.natural_vs_tau", "not regular")>>)
 
 \* ---------------------------------------------------------------- formulas with free variables
@@ -361,8 +367,6 @@ RefCompletion(th, tpreds, inputs) ==
 DefinesPred(f, pr) == LET x == StripAll(f) IN x.k = "iff" /\ x.l.k = "atom" /\ x.l.p = pr[1] /\ Len(x.l.args) = pr[2]
 DefinedOnce(comp, tpreds, inputs) ==
   \A pr \in tpreds \ inputs : Cardinality({k \in DOMAIN comp : DefinesPred(comp[k], pr)}) = 1
-OkT == [Zero EXCEPT !.n = 1, !.t = 1, !.ident = 1, !.atoms = 1]
-BadT(w) == [Zero EXCEPT !.dis = 1, !.wit = w]
 
 EvalCompletion(r) ==
   LET inputs == PredSet(r.inputs)
